@@ -155,7 +155,12 @@ pub(super) fn animate<T: Component>(
         // from the `timeline` struct anymore after the `update`.
         let timeline_delay = timeline.delay();
         let timeline_duration = timeline.duration();
-        if animator.state == AnimationState::Playing {
+        // A long frame can take the animator from `None`/`Waiting` straight to `Ended` without ever
+        // passing through `Playing`; the target must still land on the timeline's final values.
+        let ends_without_playing = animator.state != AnimationState::Playing
+            && animator.state != AnimationState::Ended
+            && position_secs >= timeline_duration;
+        if animator.state == AnimationState::Playing || ends_without_playing {
             if let Ok(mut target) = targets.get_mut(entity) {
                 timeline.update(&mut target, position_secs);
             }
